@@ -19,9 +19,16 @@ NSTEPS = {k: (2 if k == "inc%5" else 1) for k in STEPS}
 CELL = "signal-M"
 
 
-def mk(chain, form, readers, optimize):
+def mk(chain, form, readers, optimize, first=None):
     e = ("read", "m")
     body = [("mem", "m", CELL)]
+    early = {}
+    if first == "bare":      # a non-arithmetic reader declared BEFORE the loop's own read
+        body.append(("decl", "Signal", "v0", ("read", "m")))
+        early["v0"] = "anchor"
+    elif first == "cmp":
+        body.append(("decl", "Signal", "v0", B(">", ("read", "m"), I(3))))
+        early["v0"] = "input"
     if form == "nested":
         for s in chain:
             e = STEPS[s](e)
@@ -36,7 +43,7 @@ def mk(chain, form, readers, optimize):
             fexpr = STEPS[s](fexpr)
             cur = V(f"s{i}")
         body.append(("write", "m", cur, None))
-    rd = {}
+    rd = dict(early)
     if "arith" in readers:
         body.append(("decl", "Signal", "o1", B("*", ("read", "m"), I(2))))
         rd["o1"] = "input"
@@ -49,7 +56,7 @@ def mk(chain, form, readers, optimize):
     inputs = (["d"] if "+h" in chain else []) + (["hm"] if ("+hm" in chain or "+hk" in chain) else [])
     if "+hk" in chain:
         body.insert(0, ("decl", "Signal", "hk", B("*", V("hm"), I(2))))
-    return {"chain": list(chain), "form": form, "readers": rd, "stmts": gen.prog_with_inputs(inputs, body),
+    return {"chain": list(chain), "form": form, "first": first, "readers": rd, "stmts": gen.prog_with_inputs(inputs, body),
             "inputs": inputs, "fexpr": fexpr, "nsteps": sum(NSTEPS[s] for s in chain),
             "opts": {"optimize": optimize}}
 
@@ -82,6 +89,9 @@ class C04(core.Check):
                     rds = (["arith"], ["arith", "bare"]) if (len(ch) < 3 or tier == "thorough") else (["arith", "cmp"],)
                     for r in rds:
                         out.append(mk(ch, form, r, optimize))
+                    if len(ch) >= 2 and (tier == "thorough" or ch[0] in ("+1", "inc%5")):
+                        for first in ("bare", "cmp"):
+                            out.append(mk(ch, form, ["arith"], optimize, first=first))
         return out
 
     def run_case(self, case):
